@@ -13,8 +13,9 @@ import (
 //	                              NextHopGroupEntry() | MPLSEncapHeader() | UDPV6EncapHeader()
 //	call   b m s n h refs         b.<m>(args): strings in s, numbers in n, a Header in h, builder names in refs
 //	proto  b                      b.OpProto(), b.EntryProto() are observed
-//	client c m n refs             method m of client c (connection calls, Start, StartSending, AddEntry,
-//	                              ReplaceEntry, DeleteEntry, UpdateElectionID)
+//	client c m n refs             method m of client c (connection calls, Start, Stop, StartSending, AddEntry,
+//	                              ReplaceEntry, DeleteEntry, UpdateElectionID); Start may come again, after
+//	                              Stop or not: every successful Start gives the fluent client a new client.Client
 type Step struct {
 	K    string   `json:"k"`
 	B    int      `json:"b"`
@@ -104,7 +105,7 @@ var kindMethods = map[string][]string{
 
 var clientArgs = map[string]string{
 	"WithRedundancyMode": aN, "WithInitialElectionID": aNN, "WithPersistence": a0, "WithFIBACK": a0,
-	"Start": a0, "StartSending": a0, "AddEntry": aRefs, "ReplaceEntry": aRefs, "DeleteEntry": aRefs, "UpdateElectionID": aNN,
+	"Start": a0, "Stop": a0, "StartSending": a0, "AddEntry": aRefs, "ReplaceEntry": aRefs, "DeleteEntry": aRefs, "UpdateElectionID": aNN,
 }
 
 // ----------------------------------------------------------------------------- Gallina
@@ -270,18 +271,23 @@ type genBuilder struct {
 
 type genClient struct {
 	name    int
-	phase   int // 0 config, 1 started, 2 dead (Start failed and not retried)
+	phase   int // 0 config, 1 started (g.c exists)
 	mode    uint64
 	hasInit bool
 	modeSet bool
-	sending bool
+	stopped bool // Stop was called on the current client.Client
+	sending bool // StartSending was called on the current client.Client
+	stopPct int  // chance (in %) that a step on the running client is Stop
 	cfgLeft int
 }
 
 // genProg simulates a test author: builders are created, configured in any order with repeats, used
-// in Modify calls while still being changed, and clients change their election id in between.
+// in Modify calls while still being changed, and clients change their election id in between. One
+// program in three dwells on the client lifecycle (Start, operations, Stop, Start again, operations,
+// ...): it is longer, has more client steps and stops its clients more often.
 func genProg(r *drv.Rng) Prog {
 	var p Prog
+	life := r.Chance(1, 3)
 	nEntry := 1 + r.Intn(4)
 	kinds := []string{}
 	hasNH := false
@@ -307,7 +313,11 @@ func genProg(r *drv.Rng) Prog {
 	}
 	clients := []*genClient{}
 	for i := 0; i < nClients; i++ {
-		clients = append(clients, &genClient{name: i, cfgLeft: 1 + r.Intn(3)})
+		c := &genClient{name: i, cfgLeft: 1 + r.Intn(3), stopPct: 7}
+		if life {
+			c.stopPct = 16
+		}
+		clients = append(clients, c)
 	}
 	names := func(f func(string) bool) []int {
 		out := []int{}
@@ -319,6 +329,11 @@ func genProg(r *drv.Rng) Prog {
 		return out
 	}
 	ticks := 8 + r.Intn(34)
+	callShare := 62
+	if life {
+		ticks += 14
+		callShare = 50
+	}
 	for t := 0; t < ticks; t++ {
 		x := r.Intn(100)
 		switch {
@@ -327,7 +342,7 @@ func genProg(r *drv.Rng) Prog {
 			todo = todo[1:]
 			p.Steps = append(p.Steps, Step{K: "new", B: b.name, Kind: b.kind})
 			created = append(created, &b)
-		case x < 62 && len(created) > 0:
+		case x < callShare && len(created) > 0:
 			b := created[r.Intn(len(created))]
 			ms := kindMethods[b.kind]
 			m := ms[r.Intn(len(ms))]
@@ -377,7 +392,7 @@ func genProg(r *drv.Rng) Prog {
 				}
 			}
 			p.Steps = append(p.Steps, s)
-		case x < 67 && len(created) > 0:
+		case x < callShare+5 && len(created) > 0:
 			p.Steps = append(p.Steps, Step{K: "proto", B: created[r.Intn(len(created))].name})
 		default:
 			c := clients[r.Intn(len(clients))]
@@ -411,7 +426,19 @@ func genClientStep(r *drv.Rng, c *genClient, entries, all []int) Step {
 			s.M = "WithFIBACK"
 		}
 	}
+	start := func() {
+		s.M = "Start"
+		if c.mode == 2 && !c.hasInit {
+			return // fatal before client.New: whatever client.Client is in place stays in place
+		}
+		c.phase = 1
+		c.stopped, c.sending = false, false
+	}
 	if c.phase == 0 {
+		if r.Chance(1, 40) {
+			s.M = "Stop" // before the first Start: g.c is nil, nothing happens
+			return s
+		}
 		if c.cfgLeft > 0 {
 			c.cfgLeft--
 			cfg()
@@ -424,31 +451,62 @@ func genClientStep(r *drv.Rng, c *genClient, entries, all []int) Step {
 			c.hasInit = true
 			return s
 		}
-		s.M = "Start"
-		if c.mode == 2 && !c.hasInit {
+		start()
+		if c.phase == 0 {
 			c.cfgLeft = 1 // Start is fatal; configure and try again
-		} else {
-			c.phase = 1
 		}
 		return s
 	}
-	switch x := r.Intn(100); {
-	case x < 42:
+	x := r.Intn(100)
+	if c.stopped {
+		// a stopped client is mostly started again; sometimes it is reconfigured first (the new
+		// client.Client takes the settings as they are then), used although stopped (the operations
+		// stay unsent but consume ids), stopped once more, or told to send (not a program: skipped)
+		switch y := r.Intn(100); {
+		case y < 58:
+			start()
+			return s
+		case y < 70:
+			cfg()
+			return s
+		case y < 90:
+			x = r.Intn(75) // AddEntry / ReplaceEntry / DeleteEntry / UpdateElectionID below
+		case y < 95:
+			s.M = "Stop"
+			return s
+		default:
+			s.M = "StartSending"
+			return s
+		}
+	}
+	if !c.stopped && !c.sending && r.Chance(1, 6) {
+		x = 75 // a client that is not sending yet is told to send a little more often
+	}
+	if !c.stopped && !c.sending && x >= 85 && x < 85+c.stopPct && r.Chance(1, 2) {
+		x = 0 // ... and stopped a little less often before it has sent anything
+	}
+	switch {
+	case x < 38:
 		s.M = "AddEntry"
-	case x < 55:
+	case x < 50:
 		s.M = "ReplaceEntry"
-	case x < 68:
+	case x < 62:
 		s.M = "DeleteEntry"
-	case x < 83:
+	case x < 75:
 		s.M = "UpdateElectionID"
 		lo, hi := genID(r)
 		s.N = []uint64{lo, hi}
 		return s
-	case x < 91:
+	case x < 83:
 		s.M = "StartSending"
+		c.sending = true
 		return s
-	case x < 93:
-		s.M = "Start" // again: not part of a sensible program, ignored on both sides
+	case x < 85:
+		start() // again, without Stop: the running client.Client is dropped as it is
+		return s
+	case x < 85+c.stopPct:
+		s.M = "Stop"
+		c.stopped = true
 		return s
 	default:
 		cfg()
@@ -547,5 +605,52 @@ func fixedProgs() []Prog {
 		{K: "client", C: 0, M: "WithInitialElectionID", N: []uint64{5, 5}},
 		{K: "client", C: 0, M: "ReplaceEntry", Refs: []int{2, 1}},
 	}}
-	return []Prog{all, alias, none}
+	// the lifecycle of the compliance suite's flushServer (Start, StartSending, work, Stop, Start again
+	// on the same fluent client), with operations before, between and after, an election id update that
+	// must survive the restart, a reconfiguration taken up by the second client.Client, a Start without
+	// Stop, a Start that is fatal on a started client, Stop before the first Start and Stop twice
+	restart := Prog{Steps: []Step{
+		{K: "new", B: 1, Kind: "ipv4"}, {K: "new", B: 2, Kind: "nhg"}, {K: "new", B: 3, Kind: "nh"},
+		{K: "call", B: 1, M: "WithPrefix", S: []string{"1.0.0.0/8"}},
+		{K: "call", B: 2, M: "WithID", N: []uint64{1}},
+		{K: "call", B: 3, M: "WithIndex", N: []uint64{1}},
+		{K: "client", C: 0, M: "Stop"},
+		{K: "client", C: 0, M: "WithRedundancyMode", N: []uint64{2}},
+		{K: "client", C: 0, M: "WithInitialElectionID", N: []uint64{1, 0}},
+		{K: "client", C: 0, M: "Start"},
+		{K: "client", C: 0, M: "AddEntry", Refs: []int{3, 2}},
+		{K: "client", C: 0, M: "StartSending"},
+		{K: "client", C: 0, M: "AddEntry", Refs: []int{1}},
+		{K: "client", C: 0, M: "UpdateElectionID", N: []uint64{2, 0}},
+		{K: "client", C: 0, M: "Stop"},
+		{K: "client", C: 0, M: "DeleteEntry", Refs: []int{1}}, // on the stopped client: unsent, id 4
+		{K: "client", C: 0, M: "Stop"},
+		{K: "client", C: 0, M: "StartSending"}, // stopped: skipped
+		{K: "client", C: 0, M: "WithPersistence"},
+		{K: "client", C: 0, M: "Start"},
+		{K: "client", C: 0, M: "ReplaceEntry", Refs: []int{1, 2}}, // ids 5, 6, stamped (0,2)
+		{K: "client", C: 0, M: "StartSending"},                    // handshake: PRESERVE now, election id (0,1)
+		{K: "client", C: 0, M: "AddEntry", Refs: []int{3}},
+		{K: "client", C: 0, M: "Start"}, // without Stop
+		{K: "client", C: 0, M: "AddEntry", Refs: []int{3}},
+		{K: "client", C: 0, M: "Start"}, // replaced before it ever sent
+		{K: "client", C: 0, M: "DeleteEntry", Refs: []int{3, 2, 1}},
+	}}
+	fatal := Prog{Steps: []Step{
+		{K: "new", B: 1, Kind: "label"}, {K: "call", B: 1, M: "WithLabel", N: []uint64{100}},
+		{K: "client", C: 0, M: "WithRedundancyMode", N: []uint64{1}},
+		{K: "client", C: 0, M: "Start"},
+		{K: "client", C: 0, M: "AddEntry", Refs: []int{1}},
+		{K: "client", C: 0, M: "StartSending"},
+		{K: "client", C: 0, M: "WithRedundancyMode", N: []uint64{2}},
+		{K: "client", C: 0, M: "Start"}, // fatal: no election id; the running client stays
+		{K: "client", C: 0, M: "AddEntry", Refs: []int{1}},
+		{K: "client", C: 0, M: "Stop"},
+		{K: "client", C: 0, M: "Start"}, // fatal again, the stopped client stays
+		{K: "client", C: 0, M: "AddEntry", Refs: []int{1}},
+		{K: "client", C: 0, M: "WithInitialElectionID", N: []uint64{4, 0}},
+		{K: "client", C: 0, M: "Start"},
+		{K: "client", C: 0, M: "AddEntry", Refs: []int{1, 1}},
+	}}
+	return []Prog{all, alias, none, restart, fatal}
 }
